@@ -73,6 +73,12 @@ class AbortSessionAnswer(DiameterAnswer):
                                 command_code=ABORT_SESSION_MESSAGE, 
                                 application_id=None)
 
+        #: The answer belongs to the application of its session, which the
+        #: caller assigns (header.application_id). Until then the header
+        #: carries the common messages id: a header without Application-ID
+        #: field does not serialise to a Diameter message.
+        self.header.application_id = DIAMETER_APPLICATION_DEFAULT
+
         DiameterAnswer._load(self, locals())
 
 
@@ -457,6 +463,12 @@ class ReAuthAnswer(DiameterAnswer):
         DiameterAnswer.__init__(self, 
                                 command_code=RE_AUTH_MESSAGE, 
                                 application_id=None)
+
+        #: The answer belongs to the application of its session, which the
+        #: caller assigns (header.application_id). Until then the header
+        #: carries the common messages id: a header without Application-ID
+        #: field does not serialise to a Diameter message.
+        self.header.application_id = DIAMETER_APPLICATION_DEFAULT
 
         DiameterAnswer._load(self, locals())
 
